@@ -683,3 +683,72 @@ def run_eqtext(chk, F, rid="R-EQTEXT"):
                "compares kind, value, symbol and children only: two %s nodes that differ in their type alone are equal and "
                "print differently (`1` and `true` are both the constant 1)" % (K, typed[K], K),
                "%s:%s" % (eq["file"], eq["line"]), sample="equal compares the type class of %s nodes" % K)
+
+
+# ---------------------------------------------------------------------------------------------- R-EQORDER
+def run_eqorder(chk, F, rid="R-EQORDER"):
+    """`equal distinguishes trees that differ in operand order` and `implies equal text`: the children of the two nodes are
+    compared position by position, and a positive answer is reached only through the identity shortcut or after all
+    positions have been compared.  (Round 7: an `is_commutative(kind) && sub[0].equal(e[1]) && sub[1].equal(e[0])` shortcut
+    made N + 1 equal to 1 + N.)"""
+    from ..inline import expanded_fn, sites_with_conditions, strip
+    chk.rule(rid, "in expression_t::equal every comparison of a child of the node with a child of the other operand pairs the "
+                  "same position, and every `return true` is the identity shortcut (the two nodes are the same object) or "
+                  "follows the loop over all positions")
+    eq = F.fn("UTAP::expression_t::equal")
+    fn = expanded_fn(eq, F, accept=lambda t: bool(t.get("static")) and not t.get("cls"), maxdepth=2)
+    other = fn["params"][0]["name"]
+
+    def child_index(e):
+        """('this'|'other', index text) for data->sub[i] / get(i) / (*this)[i] / e[i] / e.get(i)"""
+        e = strip(e)
+        if not isinstance(e, dict) or e.get("k") != "call" or not e.get("args"):
+            return None
+        idx = short(strip(e["args"][-1]))
+        if e.get("name") in ("get", "at"):
+            r = strip(e.get("recv")) if e.get("recv") is not None else None
+            who = "this" if (r is None or r.get("k") == "this" or "sub" in short(r) and other not in short(r)) else \
+                ("other" if other in short(r) else None)
+            return (who, idx) if who else None
+        if e.get("ck") == "op" and e.get("op") == "[]":
+            tgt = e.get("recv") if e.get("recv") is not None else e["args"][0]
+            t = short(tgt)
+            who = "other" if (other in t.replace("->", ".").split(".")[0] or t.startswith(other)) else \
+                ("this" if ("sub" in t or "this" in t) else None)
+            return (who, idx) if who else None
+        return None
+    n = 0
+    for c in calls(fn["body"]):
+        if c.get("name") != "equal" or not c.get("args"):
+            continue
+        a = child_index(c.get("recv"))
+        b = child_index(c["args"][0])
+        if a is None or b is None:
+            continue
+        n += 1
+        ok = {a[0], b[0]} == {"this", "other"} and a[1] == b[1]
+        chk.ob(rid, "children|%s~%s" % (a[1], b[1]), ok,
+               "expression_t::equal compares child %s of one node with child %s of the other (`%s`): trees that differ in "
+               "the order of their operands become equal although they print differently" % (a[1], b[1], short(c)[:60]),
+               "%s:%s" % (fn["file"], c.get("l")), sample="child %s compared with child %s" % (a[1], b[1]))
+    if n < 1:
+        raise AnalysisBroken("R-EQORDER: no comparison of children found in expression_t::equal")
+    # positive exits
+    top = fn["body"].get("s", [])
+    last = top[-1] if top else {}
+    for site, conds in sites_with_conditions(fn["body"], lambda x: x.get("k") == "return" and
+                                             (strip(x.get("e")) or {}).get("k") == "bool" and strip(x["e"]).get("v") is True):
+        if site is last or any(site is x for x in walk(last)) and last.get("k") == "return":
+            loops = [s_ for s_ in top if s_.get("k") in ("for", "rangefor", "while")]
+            ok = bool(loops)
+            why = "the final return follows the loop over the children"
+        else:
+            # identity shortcut: the only condition that licenses it is `data == e.data` (true)
+            lic = [short(c) for c, t in conds if t and "data" in short(c) and "==" in short(c) and "sub" not in short(c)
+                   and "kind" not in short(c)]
+            ok = bool(lic) and not any(x.get("name") == "equal" for c, t in conds if t for x in calls(c))
+            why = "identity shortcut"
+        chk.ob(rid, "return true@%s" % ("end" if site is last else "shortcut"), ok,
+               "expression_t::equal answers true on a path that is neither the identity of the two nodes nor the end of the "
+               "position-by-position comparison (conditions: %s)" % "; ".join(short(c)[:50] for c, t in conds if t),
+               "%s:%s" % (fn["file"], site.get("l")), sample=why)
